@@ -1,8 +1,220 @@
 import BfeVerif.C18.Model
 /-! Lemmas for C18 (core Lean only). -/
 namespace BfeVerif.C18
-open BfeVerif.C17 (Bytes splitOn upper bytesLt isV4)
+open BfeVerif.C17 (Bytes splitOn upper bytesLt isV4 Ext)
 
+/-! ### byte-wise lexicographic order (Go string comparison) -/
+theorem u8_lt_irrefl (a : UInt8) : ¬ a < a := by rw [UInt8.lt_iff_toNat_lt]; omega
+theorem u8_lt_trans {a b c : UInt8} : a < b → b < c → a < c := by
+  simp only [UInt8.lt_iff_toNat_lt]; omega
+theorem u8_tri (a b : UInt8) : a < b ∨ a = b ∨ b < a := by
+  rw [← UInt8.toNat_inj]; simp only [UInt8.lt_iff_toNat_lt]; omega
+
+theorem lt_irrefl (a : Bytes) : bytesLt a a = false := by
+  induction a with
+  | nil => rfl
+  | cons x xs ih => simp [bytesLt, ih]
+
+theorem lt_cons (x y : UInt8) (xs ys : Bytes) :
+    bytesLt (x :: xs) (y :: ys) = true ↔ x < y ∨ (x = y ∧ bytesLt xs ys = true) := by
+  simp [bytesLt]
+
+theorem lt_trans : ∀ (a b c : Bytes), bytesLt a b = true → bytesLt b c = true → bytesLt a c = true := by
+  intro a
+  induction a with
+  | nil =>
+    intro b c h1 h2
+    cases b with
+    | nil => simp [bytesLt] at h1
+    | cons y ys => cases c with
+      | nil => simp [bytesLt] at h2
+      | cons z zs => simp [bytesLt]
+  | cons x xs ih =>
+    intro b c h1 h2
+    cases b with
+    | nil => simp [bytesLt] at h1
+    | cons y ys =>
+      cases c with
+      | nil => simp [bytesLt] at h2
+      | cons z zs =>
+        rw [lt_cons] at h1 h2 ⊢
+        rcases h1 with h1 | ⟨rfl, h1⟩
+        · rcases h2 with h2 | ⟨rfl, _⟩
+          · exact Or.inl (u8_lt_trans h1 h2)
+          · exact Or.inl h1
+        · rcases h2 with h2 | ⟨rfl, h2⟩
+          · exact Or.inl h2
+          · exact Or.inr ⟨rfl, ih _ _ h1 h2⟩
+
+theorem lt_tri : ∀ (a b : Bytes), bytesLt a b = true ∨ a = b ∨ bytesLt b a = true := by
+  intro a
+  induction a with
+  | nil => intro b; cases b <;> simp [bytesLt]
+  | cons x xs ih =>
+    intro b
+    cases b with
+    | nil => simp [bytesLt]
+    | cons y ys =>
+      rcases u8_tri x y with h | rfl | h
+      · exact Or.inl ((lt_cons _ _ _ _).mpr (Or.inl h))
+      · rcases ih ys with h | rfl | h
+        · exact Or.inl ((lt_cons _ _ _ _).mpr (Or.inr ⟨rfl, h⟩))
+        · exact Or.inr (Or.inl rfl)
+        · exact Or.inr (Or.inr ((lt_cons _ _ _ _).mpr (Or.inr ⟨rfl, h⟩)))
+      · exact Or.inr (Or.inr ((lt_cons _ _ _ _).mpr (Or.inl h)))
+
+/-- `a ≤ b` and `b < c` give `a < c` (with `a ≤ b` as `¬ b < a`) -/
+theorem le_lt_trans {a b c : Bytes} (h1 : bytesLt b a = false) (h2 : bytesLt b c = true) : bytesLt a c = true := by
+  rcases lt_tri a b with h | rfl | h
+  · exact lt_trans _ _ _ h h2
+  · exact h2
+  · rw [h] at h1; cases h1
+
+theorem le_trans' {a b c : Bytes} (h1 : bytesLt b a = false) (h2 : bytesLt c b = false) : bytesLt c a = false := by
+  cases h : bytesLt c a with
+  | false => rfl
+  | true =>
+    have := le_lt_trans h2 h     -- b < a
+    rw [this] at h1; cases h1
+
+/-! ### sort.Strings (insertion sort): sorted, same members -/
+def Sorted (l : List Bytes) : Prop := List.Pairwise (fun a b => bytesLt b a = false) l
+
+theorem mem_insertSorted (x v : Bytes) (l : List Bytes) : v ∈ insertSorted x l ↔ v = x ∨ v ∈ l := by
+  induction l with
+  | nil => simp [insertSorted]
+  | cons y ys ih =>
+    simp only [insertSorted]
+    split
+    · simp
+    · simp [ih]; constructor <;> (intro h; rcases h with h | h | h <;> simp [h])
+
+theorem mem_sortStrings (v : Bytes) (l : List Bytes) : v ∈ sortStrings l ↔ v ∈ l := by
+  induction l with
+  | nil => simp [sortStrings]
+  | cons x xs ih => simp [sortStrings, mem_insertSorted, ih]
+
+theorem sorted_insert (x : Bytes) (l : List Bytes) (h : Sorted l) : Sorted (insertSorted x l) := by
+  induction l with
+  | nil => simp [insertSorted, Sorted]
+  | cons y ys ih =>
+    unfold Sorted at h ih ⊢
+    rw [List.pairwise_cons] at h
+    simp only [insertSorted]
+    split
+    · rename_i hle
+      rw [List.pairwise_cons]
+      refine ⟨?_, List.pairwise_cons.mpr h⟩
+      intro a ha
+      have hxy : bytesLt y x = false := by simpa [bytesLe] using hle
+      rcases List.mem_cons.mp ha with rfl | ha
+      · exact hxy
+      · exact le_trans' hxy (h.1 a ha)
+    · rename_i hle
+      rw [List.pairwise_cons]
+      refine ⟨?_, ih h.2⟩
+      intro a ha
+      rcases (mem_insertSorted x a ys).mp ha with rfl | ha
+      · -- ¬ (x ≤ y) means y < x, hence ¬ x < y … we need bytesLt x y = false
+        have hyx : bytesLt y a = true := by
+          cases hb : bytesLt y a with
+          | true => rfl
+          | false => simp [bytesLe, hb] at hle
+        cases hxy : bytesLt a y with
+        | false => rfl
+        | true => have := lt_trans _ _ _ hyx hxy; rw [lt_irrefl] at this; cases this
+      · exact h.1 a ha
+
+theorem sorted_sortStrings (l : List Bytes) : Sorted (sortStrings l) := by
+  induction l with
+  | nil => simp [sortStrings, Sorted]
+  | cons x xs ih => exact sorted_insert x _ ih
+
+/-! ### sort.SearchStrings on a sorted list -/
+theorem sorted_idx {a : List Bytes} (h : Sorted a) (p q : Nat) (hpq : p ≤ q) (hq : q < a.length) :
+    bytesLt (a.getD q []) (a.getD p []) = false := by
+  have hp : p < a.length := by omega
+  simp only [List.getD_eq_getElem?_getD, List.getElem?_eq_getElem hq, List.getElem?_eq_getElem hp, Option.getD_some]
+  rcases Nat.lt_or_eq_of_le hpq with hlt | rfl
+  · exact (List.pairwise_iff_getElem.mp h) p q hp hq hlt
+  · exact lt_irrefl _
+
+theorem searchLoop_spec (a : List Bytes) (x : Bytes) (hs : Sorted a) :
+    ∀ fuel i j, i ≤ j → j ≤ a.length → j - i ≤ fuel →
+      (∀ k, k < i → bytesLt (a.getD k []) x = true) →
+      (∀ k, j ≤ k → k < a.length → bytesLt (a.getD k []) x = false) →
+      (∀ k, k < searchLoop a x fuel i j → bytesLt (a.getD k []) x = true) ∧
+      (∀ k, searchLoop a x fuel i j ≤ k → k < a.length → bytesLt (a.getD k []) x = false) ∧
+      searchLoop a x fuel i j ≤ a.length := by
+  intro fuel
+  induction fuel with
+  | zero =>
+    intro i j hij hj hf hlo hhi
+    have : i = j := by omega
+    subst this
+    simp only [searchLoop]
+    exact ⟨hlo, hhi, hj⟩
+  | succ fuel ih =>
+    intro i j hij hj hf hlo hhi
+    simp only [searchLoop]
+    by_cases hlt : i < j
+    · simp only [hlt, if_true]
+      have hh1 : i ≤ (i + j) / 2 := by omega
+      have hh2 : (i + j) / 2 < j := by omega
+      cases hc : bytesLt (a.getD ((i + j) / 2) []) x with
+      | true =>
+        simp only [if_true]
+        apply ih ((i + j) / 2 + 1) j (by omega) hj (by omega)
+        · intro k hk
+          have := sorted_idx hs k ((i + j) / 2) (by omega) (by omega)
+          exact le_lt_trans this hc
+        · exact hhi
+      | false =>
+        simp only [Bool.false_eq_true, if_false]
+        apply ih i ((i + j) / 2) hh1 (by omega) (by omega) hlo
+        intro k hk1 hk2
+        have := sorted_idx hs ((i + j) / 2) k hk1 hk2
+        cases hk : bytesLt (a.getD k []) x with
+        | false => rfl
+        | true => have := le_lt_trans this hk; rw [this] at hc; cases hc
+    · have : i = j := by omega
+      subst this
+      simp only [hlt, if_false]
+      exact ⟨hlo, hhi, hj⟩
+
+/-- **binary search = membership on every sorted list** -/
+theorem inSorted_iff_mem (a : List Bytes) (v : Bytes) (hs : Sorted a) : inSorted v a = true ↔ v ∈ a := by
+  obtain ⟨hlo, hhi, hlen⟩ := searchLoop_spec a v hs (a.length + 1) 0 a.length (by omega) (by omega) (by omega)
+    (by intro k hk; omega) (by intro k h1 h2; omega)
+  unfold inSorted
+  simp only [Bool.and_eq_true, decide_eq_true_eq, beq_iff_eq]
+  show searchStrings a v < a.length ∧ a.getD (searchStrings a v) [] = v ↔ v ∈ a
+  change (∀ k, k < searchStrings a v → _) at hlo
+  change (∀ k, searchStrings a v ≤ k → _) at hhi
+  change searchStrings a v ≤ a.length at hlen
+  constructor
+  · rintro ⟨hl, he⟩
+    rw [← he, List.getD_eq_getElem?_getD, List.getElem?_eq_getElem hl]
+    exact List.getElem_mem hl
+  · intro hm
+    obtain ⟨k, hk, hkv⟩ := List.mem_iff_getElem.mp hm
+    have hkd : a.getD k [] = v := by rw [List.getD_eq_getElem?_getD, List.getElem?_eq_getElem hk]; exact hkv
+    have hge : searchStrings a v ≤ k := by
+      rcases Nat.lt_or_ge k (searchStrings a v) with h | h
+      · have := hlo k h; rw [hkd, lt_irrefl] at this; cases this
+      · exact h
+    have hl : searchStrings a v < a.length := by omega
+    refine ⟨hl, ?_⟩
+    have h1 := hhi _ (Nat.le_refl _) hl                      -- ¬ a[r] < v
+    have h2 := sorted_idx hs (searchStrings a v) k hge hk    -- ¬ a[k] < a[r]
+    rw [hkd] at h2
+    rcases lt_tri (a.getD (searchStrings a v) []) v with h | h | h
+    · rw [h] at h1; cases h1
+    · exact h
+    · rw [h] at h2; cases h2
+
+
+/-! ### case folding -/
 def up1 (b : UInt8) : UInt8 := if 97 ≤ b && b ≤ 122 then b - 32 else b
 
 theorem upper_eq_map : upper = List.map up1 := by
@@ -24,8 +236,6 @@ theorem up1_eq_iff_lower1 (a b : UInt8) : (up1 a = up1 b) ↔ (lower1 a = lower1
   · intro h; rw [← up_lower a, ← up_lower b, h]
 
 theorem upper_length (s : Bytes) : (upper s).length = s.length := by simp [upper]
-theorem upper_take (n : Nat) (s : Bytes) : upper (s.take n) = (upper s).take n := by
-  simp [upper, List.map_take]
 
 theorem eqv_true_iff (a b : Bytes) : eqv true a b = true ↔ upper a = upper b := by
   rw [upper_eq_map]
@@ -51,36 +261,825 @@ theorem eqv_iff (fold : Bool) (a b : Bytes) : eqv fold a b = true ↔ upperIf fo
   · simp [upperIf, eqv_false_iff]
   · simp [upperIf, eqv_true_iff]
 
+theorem eqv_eq (fold : Bool) (a b : Bytes) : eqv fold a b = (upperIf fold a == upperIf fold b) := by
+  rw [Bool.eq_iff_iff, eqv_iff]; simp
+
 theorem upperIf_length (f : Bool) (s : Bytes) : (upperIf f s).length = s.length := by
   cases f <;> simp [upperIf, upper_length]
 theorem upperIf_take (f : Bool) (n : Nat) (s : Bytes) : upperIf f (s.take n) = (upperIf f s).take n := by
-  cases f <;> simp [upperIf, upper_take]
+  cases f <;> simp [upperIf, upper, List.map_take]
+theorem upperIf_drop (f : Bool) (n : Nat) (s : Bytes) : upperIf f (s.drop n) = (upperIf f s).drop n := by
+  cases f <;> simp [upperIf, upper, List.map_drop]
 
-theorem inM_eq_spec (ps : Bytes) (fold : Bool) (v : Bytes) : inM ps fold v = specIn ps fold v := by
-  unfold inM specIn patterns
-  rw [Bool.eq_iff_iff]
-  simp only [List.contains_iff_mem, List.mem_map, List.any_eq_true, eqv_iff]
+theorem beq_comm' (a b : Bytes) : (a == b) = (b == a) := by
+  rw [Bool.eq_iff_iff, beq_iff_eq, beq_iff_eq]; exact eq_comm
 
-theorem isPrefixOf_iff_take (p v : Bytes) :
-    p.isPrefixOf v = true ↔ p.length ≤ v.length ∧ p = v.take p.length := by
-  rw [List.isPrefixOf_iff_prefix]
-  constructor
-  · intro h
-    exact ⟨h.length_le, (List.prefix_iff_eq_take.mp h)⟩
-  · rintro ⟨_, h⟩
-    rw [h]; exact List.take_prefix _ _
+/-- HasPrefix after folding both sides = documented prefix test -/
+theorem hasPrefix_fold (f : Bool) (v p : Bytes) :
+    hasPrefix (upperIf f v) (upperIf f p) = (decide (p.length ≤ v.length) && eqv f p (v.take p.length)) := by
+  unfold hasPrefix
+  rw [upperIf_length, upperIf_length, eqv_eq, upperIf_take, beq_comm']
+
+theorem hasSuffix_fold (f : Bool) (v p : Bytes) :
+    hasSuffix (upperIf f v) (upperIf f p) =
+      (decide (p.length ≤ v.length) && eqv f p (v.drop (v.length - p.length))) := by
+  unfold hasSuffix
+  rw [upperIf_length, upperIf_length, eqv_eq, upperIf_drop, beq_comm']
+
+theorem containsB_fold (f : Bool) (v p : Bytes) :
+    containsB (upperIf f v) (upperIf f p) =
+      (List.range (v.length + 1)).any (fun i =>
+        decide (i + p.length ≤ v.length) && eqv f p ((v.drop i).take p.length)) := by
+  unfold containsB
+  rw [upperIf_length, upperIf_length]
+  congr 1
+  funext i
+  rw [eqv_eq, upperIf_take, upperIf_drop, beq_comm']
+
+/-! ### matchers = documented tests -/
+theorem inMWith_eq_spec (sort : List Bytes → List Bytes)
+    (hsorted : ∀ l, Sorted (sort l)) (hmem : ∀ l v, v ∈ sort l ↔ v ∈ l)
+    (ps : Bytes) (fold : Bool) (v : Bytes) : inMWith sort ps fold v = specIn ps fold v := by
+  unfold inMWith specIn patterns
+  rw [Bool.eq_iff_iff, inSorted_iff_mem _ _ (hsorted _), hmem]
+  simp only [List.mem_map, List.any_eq_true, eqv_iff]
+
+theorem inM_eq_spec (ps : Bytes) (fold : Bool) (v : Bytes) : inM ps fold v = specIn ps fold v :=
+  inMWith_eq_spec sortStrings sorted_sortStrings (fun l v => mem_sortStrings v l) ps fold v
 
 theorem prefixM_eq_spec (ps : Bytes) (fold : Bool) (v : Bytes) : prefixM ps fold v = specPrefix ps fold v := by
   unfold prefixM specPrefix patterns
+  rw [List.any_map]; congr 1; funext p
+  simp only [Function.comp, hasPrefix_fold]
+
+theorem suffixM_eq_spec (ps : Bytes) (fold : Bool) (v : Bytes) : suffixM ps fold v = specSuffix ps fold v := by
+  unfold suffixM specSuffix patterns
+  rw [List.any_map]; congr 1; funext p
+  simp only [Function.comp, hasSuffix_fold]
+
+theorem containM_eq_spec (ps : Bytes) (fold : Bool) (v : Bytes) : containM ps fold v = specContain ps fold v := by
+  unfold containM specContain patterns
+  rw [List.any_map]; congr 1; funext p
+  simp only [Function.comp, containsB_fold]
+
+theorem hasSuffix_slash (s : Bytes) : hasSuffix s [47] = (s.getLast? == some 47) := by
   rw [Bool.eq_iff_iff]
-  simp only [List.any_eq_true, List.mem_map, Bool.and_eq_true, decide_eq_true_eq, eqv_iff]
+  simp only [hasSuffix, List.length_cons, List.length_nil, Bool.and_eq_true, decide_eq_true_eq, beq_iff_eq]
+  rw [List.getLast?_eq_some_iff]
   constructor
-  · rintro ⟨q, ⟨p, hp, rfl⟩, h⟩
-    rw [isPrefixOf_iff_take, upperIf_length, upperIf_length] at h
-    exact ⟨p, hp, h.1, by rw [upperIf_take]; exact h.2⟩
-  · rintro ⟨p, hp, hl, h⟩
-    refine ⟨upperIf fold p, ⟨p, hp, rfl⟩, ?_⟩
-    rw [isPrefixOf_iff_take, upperIf_length, upperIf_length]
-    exact ⟨hl, by rw [← upperIf_take]; exact h⟩
+  · rintro ⟨hl, hd⟩
+    refine ⟨s.take (s.length - 1), ?_⟩
+    rw [← hd, List.take_append_drop]
+  · rintro ⟨ys, rfl⟩
+    simp
+
+theorem addSlash_eq_norm (s : Bytes) : addSlash s = norm s := by
+  unfold addSlash norm; rw [hasSuffix_slash]
+
+theorem pathElemM_eq_spec (ps : Bytes) (fold : Bool) (v : Bytes) : pathElemM ps fold v = specPathElem ps fold v := by
+  unfold pathElemM specPathElem patterns
+  rw [List.any_map]; congr 1; funext p
+  simp only [Function.comp, hasPrefix_fold, addSlash_eq_norm]
+
+theorem exactM_eq (p v : Bytes) : exactM p v = eqv true p v := by
+  rw [eqv_eq]; simp [exactM, upperIf, beq_comm']
+
+/-! ### fetch helpers -/
+theorem assoc_isSome (k : Bytes) (l : List (Bytes × Bytes)) :
+    (assoc k l).isSome = l.any (fun kv => kv.1 == k) := by
+  induction l with
+  | nil => rfl
+  | cons hd tl ih =>
+    obtain ⟨a, v⟩ := hd
+    simp only [assoc, List.any_cons]
+    by_cases h : (a == k) = true
+    · simp [h]
+    · simp [h, ih]
+
+theorem assoc_some_mem {k v : Bytes} {l : List (Bytes × Bytes)} (h : assoc k l = some v) : (k, v) ∈ l := by
+  induction l with
+  | nil => simp [assoc] at h
+  | cons hd tl ih =>
+    obtain ⟨a, w⟩ := hd
+    simp only [assoc] at h
+    by_cases hk : (a == k) = true
+    · simp only [hk, if_true, Option.some.injEq] at h
+      have : a = k := by simpa using hk
+      subst this; subst h; exact List.mem_cons_self
+    · simp only [hk] at h
+      exact List.mem_cons_of_mem _ (ih h)
+
+/-- with no empty header values, "Get(key) != \"\"" is presence of the key -/
+theorem headerGet_ne_nil (hs : List (Bytes × Bytes)) (hne : ∀ kv ∈ hs, kv.2 ≠ []) (k : Bytes) :
+    (headerGet hs k != []) = hs.any (fun kv => kv.1 == k) := by
+  rw [← assoc_isSome]
+  unfold headerGet
+  cases h : assoc k hs with
+  | none => simp
+  | some v =>
+    have := hne _ (assoc_some_mem h)
+    simp [this]
+
+theorem any_comm {α β : Type} (l1 : List α) (l2 : List β) (p : α → β → Bool) :
+    l1.any (fun a => l2.any (fun b => p a b)) = l2.any (fun b => l1.any (fun a => p a b)) := by
+  rw [Bool.eq_iff_iff]
+  simp only [List.any_eq_true]
+  constructor
+  · rintro ⟨a, ha, b, hb, h⟩; exact ⟨b, hb, a, ha, h⟩
+  · rintro ⟨b, hb, a, ha, h⟩; exact ⟨a, ha, b, hb, h⟩
+
+theorem splitOn_head (sep : UInt8) (s : Bytes) :
+    (splitOn sep s).head? = some (s.takeWhile (· != sep)) := by
+  induction s with
+  | nil => simp [splitOn]
+  | cons c rest ih =>
+    simp only [splitOn]
+    cases hs : splitOn sep rest with
+    | nil => rw [hs] at ih; simp at ih
+    | cons h t =>
+      rw [hs] at ih
+      simp only [List.head?_cons, Option.some.injEq] at ih
+      by_cases hc : c = sep
+      · subst hc; simp [List.takeWhile]
+      · have h1 : (c == sep) = false := by simpa using hc
+        have h2 : (c != sep) = true := by simp [hc]
+        simp [h1, List.takeWhile, h2, ih]
+
+theorem hostOf_eq_spec (h : Bytes) (hh : h.head? ≠ some 91) : (specHostPort h).1 = hostOf h := by
+  unfold specHostPort hostOf
+  cases h with
+  | nil => rfl
+  | cons c cs =>
+    have : c ≠ 91 := by intro hc; apply hh; simp [hc]
+    split
+    · rename_i heq; simp at heq; exact absurd heq.1 this
+    · rfl
+
+theorem dropWhile_eq_drop (p : UInt8 → Bool) (l : Bytes) : l.dropWhile p = l.drop (l.takeWhile p).length := by
+  induction l with
+  | nil => rfl
+  | cons x xs ih =>
+    by_cases hp : p x = true
+    · simp [List.dropWhile, List.takeWhile, hp, ih]
+    · simp [List.dropWhile, List.takeWhile, hp]
+
+theorem portOf_eq_spec (h : Bytes) (h1 : h.head? ≠ some 91) (h2 : h.head? ≠ some 58) :
+    (specHostPort h).2.getD [56, 48] = portOf h := by
+  unfold specHostPort portOf
+  cases h with
+  | nil => simp
+  | cons c cs =>
+    have hc1 : c ≠ 91 := by intro hc; apply h1; simp [hc]
+    have hc2 : c ≠ 58 := by intro hc; apply h2; simp [hc]
+    split
+    · rename_i heq; simp at heq; exact absurd heq.1 hc1
+    · simp only
+      rw [dropWhile_eq_drop]
+      have hne : (c != 58) = true := by simp [hc2]
+      have htw : ((c :: cs).takeWhile (· != 58)).length > 0 := by
+        simp [List.takeWhile, hne]
+      generalize hi : ((c :: cs).takeWhile (· != 58)).length = i at *
+      have hle : i ≤ (c :: cs).length := by
+        have := congrArg List.length (List.takeWhile_append_dropWhile (p := (· != 58)) (l := c :: cs))
+        rw [List.length_append, hi] at this; omega
+      by_cases hlt : i < (c :: cs).length
+      · have hx : ((c :: cs).drop i).head? = some 58 := by
+          have := List.head?_dropWhile_not (· != 58) (c :: cs)
+          rw [dropWhile_eq_drop, hi] at this
+          cases hd : ((c :: cs).drop i) with
+          | nil => have := List.drop_eq_nil_iff.mp hd; omega
+          | cons y ys => rw [hd] at this; simp at this; simp [this]
+        cases hd : (c :: cs).drop i with
+        | nil => rw [hd] at hx; simp at hx
+        | cons y ys =>
+          rw [hd] at hx
+          simp only [List.head?_cons, Option.some.injEq] at hx
+          subst hx
+          have h3 : (c :: cs).drop (i + 1) = ys := by
+            rw [← List.drop_drop, hd]; rfl
+          rw [if_pos ⟨hlt, htw⟩, h3]; rfl
+      · have h3 : (c :: cs).drop i = [] := List.drop_eq_nil_iff.mpr (by omega)
+        rw [h3, if_neg (fun h => hlt h.1)]; rfl
+
+
+/-! ### unfolding equations of matchPrim / specPrim, one per primitive (by `rfl`) -/
+theorem mEq_default_t (o : Orc) (a0 a1 : Bytes) (fold : Bool) (r : Req) :
+    matchPrim o "default_t" a0 a1 fold r = ( some true) := rfl
+
+theorem mEq_req_cip_trusted (o : Orc) (a0 a1 : Bytes) (fold : Bool) (r : Req) :
+    matchPrim o "req_cip_trusted" a0 a1 fold r = ( some r.trusted) := rfl
+
+theorem mEq_req_proto_secure (o : Orc) (a0 a1 : Bytes) (fold : Bool) (r : Req) :
+    matchPrim o "req_proto_secure" a0 a1 fold r = ( some r.secure) := rfl
+
+theorem mEq_req_proto_match (o : Orc) (a0 a1 : Bytes) (fold : Bool) (r : Req) :
+    matchPrim o "req_proto_match" a0 a1 fold r = ( some (exactM a0 (protocolOf r))) := rfl
+
+theorem mEq_req_host_in (o : Orc) (a0 a1 : Bytes) (fold : Bool) (r : Req) :
+    matchPrim o "req_host_in" a0 a1 fold r = (    if (splitOn 124 a0).any (fun s => s.contains 58) then none else some (inM a0 true (hostOf r.host))) := rfl
+
+theorem mEq_req_host_suffix_in (o : Orc) (a0 a1 : Bytes) (fold : Bool) (r : Req) :
+    matchPrim o "req_host_suffix_in" a0 a1 fold r = ( some (suffixM a0 true (hostOf r.host))) := rfl
+
+theorem mEq_req_host_tag_in (o : Orc) (a0 a1 : Bytes) (fold : Bool) (r : Req) :
+    matchPrim o "req_host_tag_in" a0 a1 fold r = ( some (inM a0 true r.hostTag)) := rfl
+
+theorem mEq_req_host_regmatch (o : Orc) (a0 a1 : Bytes) (fold : Bool) (r : Req) :
+    matchPrim o "req_host_regmatch" a0 a1 fold r = ( mRe o a0 (.str (hostOf r.host))) := rfl
+
+theorem mEq_req_port_in (o : Orc) (a0 a1 : Bytes) (fold : Bool) (r : Req) :
+    matchPrim o "req_port_in" a0 a1 fold r = ( some (inM a0 false (portOf r.host))) := rfl
+
+theorem mEq_req_method_in (o : Orc) (a0 a1 : Bytes) (fold : Bool) (r : Req) :
+    matchPrim o "req_method_in" a0 a1 fold r = ( some (inM a0 true r.method)) := rfl
+
+theorem mEq_req_path_in (o : Orc) (a0 a1 : Bytes) (fold : Bool) (r : Req) :
+    matchPrim o "req_path_in" a0 a1 fold r = ( some (inM a0 fold r.path)) := rfl
+
+theorem mEq_req_path_prefix_in (o : Orc) (a0 a1 : Bytes) (fold : Bool) (r : Req) :
+    matchPrim o "req_path_prefix_in" a0 a1 fold r = ( some (prefixM a0 fold r.path)) := rfl
+
+theorem mEq_req_path_suffix_in (o : Orc) (a0 a1 : Bytes) (fold : Bool) (r : Req) :
+    matchPrim o "req_path_suffix_in" a0 a1 fold r = ( some (suffixM a0 fold r.path)) := rfl
+
+theorem mEq_req_path_contain (o : Orc) (a0 a1 : Bytes) (fold : Bool) (r : Req) :
+    matchPrim o "req_path_contain" a0 a1 fold r = ( some (containM a0 fold r.path)) := rfl
+
+theorem mEq_req_path_element_prefix_in (o : Orc) (a0 a1 : Bytes) (fold : Bool) (r : Req) :
+    matchPrim o "req_path_element_prefix_in" a0 a1 fold r = ( some (pathElemM a0 fold r.path)) := rfl
+
+theorem mEq_req_path_regmatch (o : Orc) (a0 a1 : Bytes) (fold : Bool) (r : Req) :
+    matchPrim o "req_path_regmatch" a0 a1 fold r = ( mRe o a0 (.str r.path)) := rfl
+
+theorem mEq_req_url_regmatch (o : Orc) (a0 a1 : Bytes) (fold : Bool) (r : Req) :
+    matchPrim o "req_url_regmatch" a0 a1 fold r = ( mRe o a0 (.str r.uri)) := rfl
+
+theorem mEq_req_ua_regmatch (o : Orc) (a0 a1 : Bytes) (fold : Bool) (r : Req) :
+    matchPrim o "req_ua_regmatch" a0 a1 fold r = ( mRe o a0 (.str (headerGet r.headers uaKey))) := rfl
+
+theorem mEq_req_query_exist (o : Orc) (a0 a1 : Bytes) (fold : Bool) (r : Req) :
+    matchPrim o "req_query_exist" a0 a1 fold r = ( some (!r.query.isEmpty)) := rfl
+
+theorem mEq_req_query_key_in (o : Orc) (a0 a1 : Bytes) (fold : Bool) (r : Req) :
+    matchPrim o "req_query_key_in" a0 a1 fold r = ( some ((splitOn 124 a0).any (fun k => (assoc k r.query).isSome))) := rfl
+
+theorem mEq_req_query_key_prefix_in (o : Orc) (a0 a1 : Bytes) (fold : Bool) (r : Req) :
+    matchPrim o "req_query_key_prefix_in" a0 a1 fold r = ( some (r.query.any (fun kv => (splitOn 124 a0).any (fun p => hasPrefix kv.1 p)))) := rfl
+
+theorem mEq_req_query_value_in (o : Orc) (a0 a1 : Bytes) (fold : Bool) (r : Req) :
+    matchPrim o "req_query_value_in" a0 a1 fold r = ( some (inM a1 fold (queryGet r a0))) := rfl
+
+theorem mEq_req_query_value_prefix_in (o : Orc) (a0 a1 : Bytes) (fold : Bool) (r : Req) :
+    matchPrim o "req_query_value_prefix_in" a0 a1 fold r = ( some (prefixM a1 fold (queryGet r a0))) := rfl
+
+theorem mEq_req_query_value_suffix_in (o : Orc) (a0 a1 : Bytes) (fold : Bool) (r : Req) :
+    matchPrim o "req_query_value_suffix_in" a0 a1 fold r = ( some (suffixM a1 fold (queryGet r a0))) := rfl
+
+theorem mEq_req_query_value_contain (o : Orc) (a0 a1 : Bytes) (fold : Bool) (r : Req) :
+    matchPrim o "req_query_value_contain" a0 a1 fold r = ( some (containM a1 fold (queryGet r a0))) := rfl
+
+theorem mEq_req_query_value_regmatch (o : Orc) (a0 a1 : Bytes) (fold : Bool) (r : Req) :
+    matchPrim o "req_query_value_regmatch" a0 a1 fold r = ( mRe o a1 (.str (queryGet r a0))) := rfl
+
+theorem mEq_req_query_value_hash_in (o : Orc) (a0 a1 : Bytes) (fold : Bool) (r : Req) :
+    matchPrim o "req_query_value_hash_in" a0 a1 fold r = ( mHash o a1 fold (.str (queryGet r a0))) := rfl
+
+theorem mEq_req_header_key_in (o : Orc) (a0 a1 : Bytes) (fold : Bool) (r : Req) :
+    matchPrim o "req_header_key_in" a0 a1 fold r = ( some ((splitOn 124 a0).any (fun k => headerGet r.headers k != []))) := rfl
+
+theorem mEq_req_header_value_in (o : Orc) (a0 a1 : Bytes) (fold : Bool) (r : Req) :
+    matchPrim o "req_header_value_in" a0 a1 fold r = ( some (inM a1 fold (headerGet r.headers a0))) := rfl
+
+theorem mEq_req_header_value_prefix_in (o : Orc) (a0 a1 : Bytes) (fold : Bool) (r : Req) :
+    matchPrim o "req_header_value_prefix_in" a0 a1 fold r = ( some (prefixM a1 fold (headerGet r.headers a0))) := rfl
+
+theorem mEq_req_header_value_suffix_in (o : Orc) (a0 a1 : Bytes) (fold : Bool) (r : Req) :
+    matchPrim o "req_header_value_suffix_in" a0 a1 fold r = ( some (suffixM a1 fold (headerGet r.headers a0))) := rfl
+
+theorem mEq_req_header_value_contain (o : Orc) (a0 a1 : Bytes) (fold : Bool) (r : Req) :
+    matchPrim o "req_header_value_contain" a0 a1 fold r = ( some (containM a1 fold (headerGet r.headers a0))) := rfl
+
+theorem mEq_req_header_value_regmatch (o : Orc) (a0 a1 : Bytes) (fold : Bool) (r : Req) :
+    matchPrim o "req_header_value_regmatch" a0 a1 fold r = ( mRe o a1 (.str (headerGet r.headers a0))) := rfl
+
+theorem mEq_req_header_value_hash_in (o : Orc) (a0 a1 : Bytes) (fold : Bool) (r : Req) :
+    matchPrim o "req_header_value_hash_in" a0 a1 fold r = ( mHash o a1 fold (.str (headerGet r.headers a0))) := rfl
+
+theorem mEq_req_cookie_key_in (o : Orc) (a0 a1 : Bytes) (fold : Bool) (r : Req) :
+    matchPrim o "req_cookie_key_in" a0 a1 fold r = ( some ((splitOn 124 a0).any (fun k => (assoc k r.cookies).isSome))) := rfl
+
+theorem mEq_req_cookie_value_in (o : Orc) (a0 a1 : Bytes) (fold : Bool) (r : Req) :
+    matchPrim o "req_cookie_value_in" a0 a1 fold r = ( some (onStr (cookieF r a0) (inM a1 fold))) := rfl
+
+theorem mEq_req_cookie_value_prefix_in (o : Orc) (a0 a1 : Bytes) (fold : Bool) (r : Req) :
+    matchPrim o "req_cookie_value_prefix_in" a0 a1 fold r = ( some (onStr (cookieF r a0) (prefixM a1 fold))) := rfl
+
+theorem mEq_req_cookie_value_suffix_in (o : Orc) (a0 a1 : Bytes) (fold : Bool) (r : Req) :
+    matchPrim o "req_cookie_value_suffix_in" a0 a1 fold r = ( some (onStr (cookieF r a0) (suffixM a1 fold))) := rfl
+
+theorem mEq_req_cookie_value_contain (o : Orc) (a0 a1 : Bytes) (fold : Bool) (r : Req) :
+    matchPrim o "req_cookie_value_contain" a0 a1 fold r = ( some (onStr (cookieF r a0) (containM a1 fold))) := rfl
+
+theorem mEq_req_cookie_value_hash_in (o : Orc) (a0 a1 : Bytes) (fold : Bool) (r : Req) :
+    matchPrim o "req_cookie_value_hash_in" a0 a1 fold r = ( mHash o a1 fold (cookieF r a0)) := rfl
+
+theorem mEq_req_tag_match (o : Orc) (a0 a1 : Bytes) (fold : Bool) (r : Req) :
+    matchPrim o "req_tag_match" a0 a1 fold r = (    some (match tagsOf r a0 with
+      | some ts => ts.any (fun tag => (splitOn 58 tag).head? == some a1)
+      | none => false)) := rfl
+
+theorem mEq_req_context_value_in (o : Orc) (a0 a1 : Bytes) (fold : Bool) (r : Req) :
+    matchPrim o "req_context_value_in" a0 a1 fold r = ( some (onStr (ctxOf r a0) (inM a1 fold))) := rfl
+
+theorem mEq_req_cip_range (o : Orc) (a0 a1 : Bytes) (fold : Bool) (r : Req) :
+    matchPrim o "req_cip_range" a0 a1 fold r = ( mIpRange o a0 a1 r.cip) := rfl
+
+theorem mEq_req_vip_range (o : Orc) (a0 a1 : Bytes) (fold : Bool) (r : Req) :
+    matchPrim o "req_vip_range" a0 a1 fold r = ( mIpRange o a0 a1 r.vip) := rfl
+
+theorem mEq_ses_vip_range (o : Orc) (a0 a1 : Bytes) (fold : Bool) (r : Req) :
+    matchPrim o "ses_vip_range" a0 a1 fold r = ( mIpRange o a0 a1 r.vip) := rfl
+
+theorem mEq_ses_sip_range (o : Orc) (a0 a1 : Bytes) (fold : Bool) (r : Req) :
+    matchPrim o "ses_sip_range" a0 a1 fold r = ( mIpRange o a0 a1 r.sip) := rfl
+
+theorem mEq_req_cip_hash_in (o : Orc) (a0 a1 : Bytes) (fold : Bool) (r : Req) :
+    matchPrim o "req_cip_hash_in" a0 a1 fold r = ( mHash o a0 false (match r.cip with | some _ => .str r.cipStr | none => .err)) := rfl
+
+theorem mEq_req_vip_in (o : Orc) (a0 a1 : Bytes) (fold : Bool) (r : Req) :
+    matchPrim o "req_vip_in" a0 a1 fold r = (    let ps := (splitOn 124 a0).map o.x.parseIP
+    if ps.all (·.isSome) then some (ipFetch r.vip (fun ip => ps.any (· == some ip))) else none) := rfl
+
+theorem mEq_res_code_in (o : Orc) (a0 a1 : Bytes) (fold : Bool) (r : Req) :
+    matchPrim o "res_code_in" a0 a1 fold r = ( some (onStr (match r.resp with | some p => .str p.code | none => .err) (inM a0 false))) := rfl
+
+theorem mEq_res_header_key_in (o : Orc) (a0 a1 : Bytes) (fold : Bool) (r : Req) :
+    matchPrim o "res_header_key_in" a0 a1 fold r = (    some (match r.resp with
+      | some p => (splitOn 124 a0).any (fun k => headerGet p.headers k != [])
+      | none => false)) := rfl
+
+theorem mEq_res_header_value_in (o : Orc) (a0 a1 : Bytes) (fold : Bool) (r : Req) :
+    matchPrim o "res_header_value_in" a0 a1 fold r = ( some (onStr (rhdrF r a0) (inM a1 fold))) := rfl
+
+theorem mEq_ses_tls_sni_in (o : Orc) (a0 a1 : Bytes) (fold : Bool) (r : Req) :
+    matchPrim o "ses_tls_sni_in" a0 a1 fold r = ( some (onStr (sniOf r) (inM a0 true))) := rfl
+
+theorem mEq_ses_tls_client_auth (o : Orc) (a0 a1 : Bytes) (fold : Bool) (r : Req) :
+    matchPrim o "ses_tls_client_auth" a0 a1 fold r = ( some (match r.secure, r.tls with | true, some t => t.clientAuth | _, _ => false)) := rfl
+
+theorem mEq_ses_tls_client_ca_in (o : Orc) (a0 a1 : Bytes) (fold : Bool) (r : Req) :
+    matchPrim o "ses_tls_client_ca_in" a0 a1 fold r = ( some (onStr (caOf r) (inM a0 false))) := rfl
+
+theorem mEq_bfe_time_range (o : Orc) (a0 a1 : Bytes) (fold : Bool) (r : Req) :
+    matchPrim o "bfe_time_range" a0 a1 fold r = (    match o.x.parseTime a0, o.x.parseTime a1 with
+    | some s, some e =>
+      if s > e then none
+      else some (match timeOf o r with | some t => decide (s ≤ t) && decide (t ≤ e) | none => false)
+    | _, _ => none) := rfl
+
+theorem mEq_bfe_periodic_time_range (o : Orc) (a0 a1 : Bytes) (fold : Bool) (r : Req) :
+    matchPrim o "bfe_periodic_time_range" a0 a1 fold r = (    -- a1 is the end time, the period argument (must be empty) is checked by the harness side of Build
+    match C17.parseTimeOfDay o.x a0, C17.parseTimeOfDay o.x a1 with
+    | some (some (s1, o1)), some (some (s2, o2)) =>
+      if s1 > s2 then none else if o1 != o2 then none
+      else some (match timeOf o r with
+        | some t => decide ((s1 : Int) ≤ clockSecs t o1) && decide (clockSecs t o1 ≤ (s2 : Int))
+        | none => false)
+    | _, _ => none) := rfl
+
+theorem sEq_default_t (o : Orc) (a0 a1 : Bytes) (fold : Bool) (r : Req) :
+    specPrim o "default_t" a0 a1 fold r = ( some true) := rfl
+
+theorem sEq_req_cip_trusted (o : Orc) (a0 a1 : Bytes) (fold : Bool) (r : Req) :
+    specPrim o "req_cip_trusted" a0 a1 fold r = ( some r.trusted) := rfl
+
+theorem sEq_req_proto_secure (o : Orc) (a0 a1 : Bytes) (fold : Bool) (r : Req) :
+    specPrim o "req_proto_secure" a0 a1 fold r = ( some r.secure) := rfl
+
+theorem sEq_req_proto_match (o : Orc) (a0 a1 : Bytes) (fold : Bool) (r : Req) :
+    specPrim o "req_proto_match" a0 a1 fold r = ( some (eqv true a0 (if r.secure then r.sesProto else r.proto))) := rfl
+
+theorem sEq_req_host_in (o : Orc) (a0 a1 : Bytes) (fold : Bool) (r : Req) :
+    specPrim o "req_host_in" a0 a1 fold r = (    if (patterns a0).any (fun s => s.contains 58) then none else some (specIn a0 true (specHostPort r.host).1)) := rfl
+
+theorem sEq_req_host_suffix_in (o : Orc) (a0 a1 : Bytes) (fold : Bool) (r : Req) :
+    specPrim o "req_host_suffix_in" a0 a1 fold r = ( some (specSuffix a0 true (specHostPort r.host).1)) := rfl
+
+theorem sEq_req_host_tag_in (o : Orc) (a0 a1 : Bytes) (fold : Bool) (r : Req) :
+    specPrim o "req_host_tag_in" a0 a1 fold r = ( some (specIn a0 true r.hostTag)) := rfl
+
+theorem sEq_req_host_regmatch (o : Orc) (a0 a1 : Bytes) (fold : Bool) (r : Req) :
+    specPrim o "req_host_regmatch" a0 a1 fold r = ( sRe o a0 (some (specHostPort r.host).1)) := rfl
+
+theorem sEq_req_port_in (o : Orc) (a0 a1 : Bytes) (fold : Bool) (r : Req) :
+    specPrim o "req_port_in" a0 a1 fold r = ( some (specIn a0 false ((specHostPort r.host).2.getD [56, 48]))) := rfl
+
+theorem sEq_req_method_in (o : Orc) (a0 a1 : Bytes) (fold : Bool) (r : Req) :
+    specPrim o "req_method_in" a0 a1 fold r = ( some (specIn a0 true r.method)) := rfl
+
+theorem sEq_req_path_in (o : Orc) (a0 a1 : Bytes) (fold : Bool) (r : Req) :
+    specPrim o "req_path_in" a0 a1 fold r = ( some (specIn a0 fold r.path)) := rfl
+
+theorem sEq_req_path_prefix_in (o : Orc) (a0 a1 : Bytes) (fold : Bool) (r : Req) :
+    specPrim o "req_path_prefix_in" a0 a1 fold r = ( some (specPrefix a0 fold r.path)) := rfl
+
+theorem sEq_req_path_suffix_in (o : Orc) (a0 a1 : Bytes) (fold : Bool) (r : Req) :
+    specPrim o "req_path_suffix_in" a0 a1 fold r = ( some (specSuffix a0 fold r.path)) := rfl
+
+theorem sEq_req_path_contain (o : Orc) (a0 a1 : Bytes) (fold : Bool) (r : Req) :
+    specPrim o "req_path_contain" a0 a1 fold r = ( some (specContain a0 fold r.path)) := rfl
+
+theorem sEq_req_path_element_prefix_in (o : Orc) (a0 a1 : Bytes) (fold : Bool) (r : Req) :
+    specPrim o "req_path_element_prefix_in" a0 a1 fold r = ( some (specPathElem a0 fold r.path)) := rfl
+
+theorem sEq_req_path_regmatch (o : Orc) (a0 a1 : Bytes) (fold : Bool) (r : Req) :
+    specPrim o "req_path_regmatch" a0 a1 fold r = ( sRe o a0 (some r.path)) := rfl
+
+theorem sEq_req_url_regmatch (o : Orc) (a0 a1 : Bytes) (fold : Bool) (r : Req) :
+    specPrim o "req_url_regmatch" a0 a1 fold r = ( sRe o a0 (some r.uri)) := rfl
+
+theorem sEq_req_ua_regmatch (o : Orc) (a0 a1 : Bytes) (fold : Bool) (r : Req) :
+    specPrim o "req_ua_regmatch" a0 a1 fold r = ( sRe o a0 (assoc uaKey r.headers)) := rfl
+
+theorem sEq_req_query_exist (o : Orc) (a0 a1 : Bytes) (fold : Bool) (r : Req) :
+    specPrim o "req_query_exist" a0 a1 fold r = ( some (r.query.length != 0)) := rfl
+
+theorem sEq_req_query_key_in (o : Orc) (a0 a1 : Bytes) (fold : Bool) (r : Req) :
+    specPrim o "req_query_key_in" a0 a1 fold r = ( some ((patterns a0).any (fun k => r.query.any (fun kv => kv.1 == k)))) := rfl
+
+theorem sEq_req_query_key_prefix_in (o : Orc) (a0 a1 : Bytes) (fold : Bool) (r : Req) :
+    specPrim o "req_query_key_prefix_in" a0 a1 fold r = (    some ((patterns a0).any (fun p => r.query.any (fun kv => decide (p.length ≤ kv.1.length) && kv.1.take p.length == p)))) := rfl
+
+theorem sEq_req_query_value_in (o : Orc) (a0 a1 : Bytes) (fold : Bool) (r : Req) :
+    specPrim o "req_query_value_in" a0 a1 fold r = ( some (attr (assoc a0 r.query) (specIn a1 fold))) := rfl
+
+theorem sEq_req_query_value_prefix_in (o : Orc) (a0 a1 : Bytes) (fold : Bool) (r : Req) :
+    specPrim o "req_query_value_prefix_in" a0 a1 fold r = ( some (attr (assoc a0 r.query) (specPrefix a1 fold))) := rfl
+
+theorem sEq_req_query_value_suffix_in (o : Orc) (a0 a1 : Bytes) (fold : Bool) (r : Req) :
+    specPrim o "req_query_value_suffix_in" a0 a1 fold r = ( some (attr (assoc a0 r.query) (specSuffix a1 fold))) := rfl
+
+theorem sEq_req_query_value_contain (o : Orc) (a0 a1 : Bytes) (fold : Bool) (r : Req) :
+    specPrim o "req_query_value_contain" a0 a1 fold r = ( some (attr (assoc a0 r.query) (specContain a1 fold))) := rfl
+
+theorem sEq_req_query_value_regmatch (o : Orc) (a0 a1 : Bytes) (fold : Bool) (r : Req) :
+    specPrim o "req_query_value_regmatch" a0 a1 fold r = ( sRe o a1 (assoc a0 r.query)) := rfl
+
+theorem sEq_req_query_value_hash_in (o : Orc) (a0 a1 : Bytes) (fold : Bool) (r : Req) :
+    specPrim o "req_query_value_hash_in" a0 a1 fold r = ( specHash o a1 fold (assoc a0 r.query)) := rfl
+
+theorem sEq_req_header_key_in (o : Orc) (a0 a1 : Bytes) (fold : Bool) (r : Req) :
+    specPrim o "req_header_key_in" a0 a1 fold r = ( some ((patterns a0).any (fun k => r.headers.any (fun kv => kv.1 == k)))) := rfl
+
+theorem sEq_req_header_value_in (o : Orc) (a0 a1 : Bytes) (fold : Bool) (r : Req) :
+    specPrim o "req_header_value_in" a0 a1 fold r = ( some (attr (assoc a0 r.headers) (specIn a1 fold))) := rfl
+
+theorem sEq_req_header_value_prefix_in (o : Orc) (a0 a1 : Bytes) (fold : Bool) (r : Req) :
+    specPrim o "req_header_value_prefix_in" a0 a1 fold r = ( some (attr (assoc a0 r.headers) (specPrefix a1 fold))) := rfl
+
+theorem sEq_req_header_value_suffix_in (o : Orc) (a0 a1 : Bytes) (fold : Bool) (r : Req) :
+    specPrim o "req_header_value_suffix_in" a0 a1 fold r = ( some (attr (assoc a0 r.headers) (specSuffix a1 fold))) := rfl
+
+theorem sEq_req_header_value_contain (o : Orc) (a0 a1 : Bytes) (fold : Bool) (r : Req) :
+    specPrim o "req_header_value_contain" a0 a1 fold r = ( some (attr (assoc a0 r.headers) (specContain a1 fold))) := rfl
+
+theorem sEq_req_header_value_regmatch (o : Orc) (a0 a1 : Bytes) (fold : Bool) (r : Req) :
+    specPrim o "req_header_value_regmatch" a0 a1 fold r = ( sRe o a1 (assoc a0 r.headers)) := rfl
+
+theorem sEq_req_header_value_hash_in (o : Orc) (a0 a1 : Bytes) (fold : Bool) (r : Req) :
+    specPrim o "req_header_value_hash_in" a0 a1 fold r = ( specHash o a1 fold (assoc a0 r.headers)) := rfl
+
+theorem sEq_req_cookie_key_in (o : Orc) (a0 a1 : Bytes) (fold : Bool) (r : Req) :
+    specPrim o "req_cookie_key_in" a0 a1 fold r = ( some ((patterns a0).any (fun k => r.cookies.any (fun kv => kv.1 == k)))) := rfl
+
+theorem sEq_req_cookie_value_in (o : Orc) (a0 a1 : Bytes) (fold : Bool) (r : Req) :
+    specPrim o "req_cookie_value_in" a0 a1 fold r = ( some (attr (assoc a0 r.cookies) (specIn a1 fold))) := rfl
+
+theorem sEq_req_cookie_value_prefix_in (o : Orc) (a0 a1 : Bytes) (fold : Bool) (r : Req) :
+    specPrim o "req_cookie_value_prefix_in" a0 a1 fold r = ( some (attr (assoc a0 r.cookies) (specPrefix a1 fold))) := rfl
+
+theorem sEq_req_cookie_value_suffix_in (o : Orc) (a0 a1 : Bytes) (fold : Bool) (r : Req) :
+    specPrim o "req_cookie_value_suffix_in" a0 a1 fold r = ( some (attr (assoc a0 r.cookies) (specSuffix a1 fold))) := rfl
+
+theorem sEq_req_cookie_value_contain (o : Orc) (a0 a1 : Bytes) (fold : Bool) (r : Req) :
+    specPrim o "req_cookie_value_contain" a0 a1 fold r = ( some (attr (assoc a0 r.cookies) (specContain a1 fold))) := rfl
+
+theorem sEq_req_cookie_value_hash_in (o : Orc) (a0 a1 : Bytes) (fold : Bool) (r : Req) :
+    specPrim o "req_cookie_value_hash_in" a0 a1 fold r = ( specHash o a1 fold (assoc a0 r.cookies)) := rfl
+
+theorem sEq_req_tag_match (o : Orc) (a0 a1 : Bytes) (fold : Bool) (r : Req) :
+    specPrim o "req_tag_match" a0 a1 fold r = (    some (match tagsOf r a0 with
+      | some ts => ts.any (fun tag => tag.takeWhile (· != 58) == a1)
+      | none => false)) := rfl
+
+theorem sEq_req_context_value_in (o : Orc) (a0 a1 : Bytes) (fold : Bool) (r : Req) :
+    specPrim o "req_context_value_in" a0 a1 fold r = (    some (match r.ctx with
+      | some m => !a0.isEmpty && (match m.find? (fun e => e.1 == a0) with
+          | some (_, some v) => specIn a1 fold v
+          | _ => false)
+      | none => false)) := rfl
+
+theorem sEq_req_cip_range (o : Orc) (a0 a1 : Bytes) (fold : Bool) (r : Req) :
+    specPrim o "req_cip_range" a0 a1 fold r = ( specIpRange o a0 a1 r.cip) := rfl
+
+theorem sEq_req_vip_range (o : Orc) (a0 a1 : Bytes) (fold : Bool) (r : Req) :
+    specPrim o "req_vip_range" a0 a1 fold r = ( specIpRange o a0 a1 r.vip) := rfl
+
+theorem sEq_ses_vip_range (o : Orc) (a0 a1 : Bytes) (fold : Bool) (r : Req) :
+    specPrim o "ses_vip_range" a0 a1 fold r = ( specIpRange o a0 a1 r.vip) := rfl
+
+theorem sEq_ses_sip_range (o : Orc) (a0 a1 : Bytes) (fold : Bool) (r : Req) :
+    specPrim o "ses_sip_range" a0 a1 fold r = ( specIpRange o a0 a1 r.sip) := rfl
+
+theorem sEq_req_cip_hash_in (o : Orc) (a0 a1 : Bytes) (fold : Bool) (r : Req) :
+    specPrim o "req_cip_hash_in" a0 a1 fold r = ( specHash o a0 false (r.cip.map fun _ => r.cipStr)) := rfl
+
+theorem sEq_req_vip_in (o : Orc) (a0 a1 : Bytes) (fold : Bool) (r : Req) :
+    specPrim o "req_vip_in" a0 a1 fold r = (    let ps := (patterns a0).map o.x.parseIP
+    if ps.all (·.isSome) then some (attr r.vip fun ip => ps.contains (some ip)) else none) := rfl
+
+theorem sEq_res_code_in (o : Orc) (a0 a1 : Bytes) (fold : Bool) (r : Req) :
+    specPrim o "res_code_in" a0 a1 fold r = ( some (attr (r.resp.map (·.code)) (specIn a0 false))) := rfl
+
+theorem sEq_res_header_key_in (o : Orc) (a0 a1 : Bytes) (fold : Bool) (r : Req) :
+    specPrim o "res_header_key_in" a0 a1 fold r = ( some (attr (r.resp.map fun _ => []) fun _ =>
+      (patterns a0).any (fun k => (r.resp.map (·.headers)).getD [] |>.any (fun kv => kv.1 == k)))) := rfl
+
+theorem sEq_res_header_value_in (o : Orc) (a0 a1 : Bytes) (fold : Bool) (r : Req) :
+    specPrim o "res_header_value_in" a0 a1 fold r = ( some (attr (sRh r a0) (specIn a1 fold))) := rfl
+
+theorem sEq_ses_tls_sni_in (o : Orc) (a0 a1 : Bytes) (fold : Bool) (r : Req) :
+    specPrim o "ses_tls_sni_in" a0 a1 fold r = ( some (attr ((specTls r).bind fun t => if t.sni.isEmpty then none else some t.sni) (specIn a0 true))) := rfl
+
+theorem sEq_ses_tls_client_auth (o : Orc) (a0 a1 : Bytes) (fold : Bool) (r : Req) :
+    specPrim o "ses_tls_client_auth" a0 a1 fold r = ( some (match specTls r with | some t => t.clientAuth | none => false)) := rfl
+
+theorem sEq_ses_tls_client_ca_in (o : Orc) (a0 a1 : Bytes) (fold : Bool) (r : Req) :
+    specPrim o "ses_tls_client_ca_in" a0 a1 fold r = (    some (attr ((specTls r).bind fun t => if t.clientAuth && !t.ca.isEmpty then some t.ca else none) (specIn a0 false))) := rfl
+
+theorem sEq_bfe_time_range (o : Orc) (a0 a1 : Bytes) (fold : Bool) (r : Req) :
+    specPrim o "bfe_time_range" a0 a1 fold r = (    match o.x.parseTime a0, o.x.parseTime a1 with
+    | some s, some e =>
+      if s > e then none
+      else some (match timeOf o r with | some t => decide (s ≤ t ∧ t ≤ e) | none => false)
+    | _, _ => none) := rfl
+
+theorem sEq_bfe_periodic_time_range (o : Orc) (a0 a1 : Bytes) (fold : Bool) (r : Req) :
+    specPrim o "bfe_periodic_time_range" a0 a1 fold r = (    match C17.parseTimeOfDay o.x a0, C17.parseTimeOfDay o.x a1 with
+    | some (some (s1, o1)), some (some (s2, o2)) =>
+      if s1 > s2 then none else if o1 != o2 then none
+      else some (match timeOf o r with
+        | some t => decide ((s1 : Int) ≤ (t + o1) % 86400 ∧ (t + o1) % 86400 ≤ (s2 : Int))
+        | none => false)
+    | _, _ => none) := rfl
+
+
+/-! ### model = documented meaning, primitive by primitive -/
+section PrimEq
+variable (o : Orc) (a0 a1 : Bytes) (fold : Bool) (r : Req)
+
+theorem eq_default_t : matchPrim o "default_t" a0 a1 fold r = specPrim o "default_t" a0 a1 fold r := rfl
+theorem eq_req_cip_trusted : matchPrim o "req_cip_trusted" a0 a1 fold r = specPrim o "req_cip_trusted" a0 a1 fold r := rfl
+theorem eq_req_proto_secure : matchPrim o "req_proto_secure" a0 a1 fold r = specPrim o "req_proto_secure" a0 a1 fold r := rfl
+theorem eq_req_proto_match : matchPrim o "req_proto_match" a0 a1 fold r = specPrim o "req_proto_match" a0 a1 fold r := by
+  rw [mEq_req_proto_match, sEq_req_proto_match, exactM_eq]; rfl
+theorem eq_req_host_tag_in : matchPrim o "req_host_tag_in" a0 a1 fold r = specPrim o "req_host_tag_in" a0 a1 fold r := by
+  rw [mEq_req_host_tag_in, sEq_req_host_tag_in, inM_eq_spec]
+theorem eq_req_method_in : matchPrim o "req_method_in" a0 a1 fold r = specPrim o "req_method_in" a0 a1 fold r := by
+  rw [mEq_req_method_in, sEq_req_method_in, inM_eq_spec]
+theorem eq_req_path_in : matchPrim o "req_path_in" a0 a1 fold r = specPrim o "req_path_in" a0 a1 fold r := by
+  rw [mEq_req_path_in, sEq_req_path_in, inM_eq_spec]
+theorem eq_req_path_prefix_in : matchPrim o "req_path_prefix_in" a0 a1 fold r = specPrim o "req_path_prefix_in" a0 a1 fold r := by
+  rw [mEq_req_path_prefix_in, sEq_req_path_prefix_in, prefixM_eq_spec]
+theorem eq_req_path_suffix_in : matchPrim o "req_path_suffix_in" a0 a1 fold r = specPrim o "req_path_suffix_in" a0 a1 fold r := by
+  rw [mEq_req_path_suffix_in, sEq_req_path_suffix_in, suffixM_eq_spec]
+theorem eq_req_path_contain : matchPrim o "req_path_contain" a0 a1 fold r = specPrim o "req_path_contain" a0 a1 fold r := by
+  rw [mEq_req_path_contain, sEq_req_path_contain, containM_eq_spec]
+theorem eq_req_path_element_prefix_in : matchPrim o "req_path_element_prefix_in" a0 a1 fold r = specPrim o "req_path_element_prefix_in" a0 a1 fold r := by
+  rw [mEq_req_path_element_prefix_in, sEq_req_path_element_prefix_in, pathElemM_eq_spec]
+theorem eq_req_path_regmatch : matchPrim o "req_path_regmatch" a0 a1 fold r = specPrim o "req_path_regmatch" a0 a1 fold r := by
+  rw [mEq_req_path_regmatch, sEq_req_path_regmatch]; rfl
+theorem eq_req_url_regmatch : matchPrim o "req_url_regmatch" a0 a1 fold r = specPrim o "req_url_regmatch" a0 a1 fold r := by
+  rw [mEq_req_url_regmatch, sEq_req_url_regmatch]; rfl
+theorem eq_req_query_exist : matchPrim o "req_query_exist" a0 a1 fold r = specPrim o "req_query_exist" a0 a1 fold r := by
+  rw [mEq_req_query_exist, sEq_req_query_exist]; cases r.query <;> simp
+theorem eq_req_query_key_in : matchPrim o "req_query_key_in" a0 a1 fold r = specPrim o "req_query_key_in" a0 a1 fold r := by
+  rw [mEq_req_query_key_in, sEq_req_query_key_in]; simp only [assoc_isSome, patterns]
+theorem eq_req_cookie_key_in : matchPrim o "req_cookie_key_in" a0 a1 fold r = specPrim o "req_cookie_key_in" a0 a1 fold r := by
+  rw [mEq_req_cookie_key_in, sEq_req_cookie_key_in]; simp only [assoc_isSome, patterns]
+theorem eq_req_query_key_prefix_in : matchPrim o "req_query_key_prefix_in" a0 a1 fold r = specPrim o "req_query_key_prefix_in" a0 a1 fold r := by
+  rw [mEq_req_query_key_prefix_in, sEq_req_query_key_prefix_in, any_comm]; rfl
+
+theorem onStr_cookie (m : Bytes → Bool) : onStr (cookieF r a0) m = attr (assoc a0 r.cookies) m := by
+  unfold cookieF; cases assoc a0 r.cookies <;> rfl
+
+theorem eq_req_cookie_value_in : matchPrim o "req_cookie_value_in" a0 a1 fold r = specPrim o "req_cookie_value_in" a0 a1 fold r := by
+  rw [mEq_req_cookie_value_in, sEq_req_cookie_value_in, onStr_cookie]; congr; funext v; exact inM_eq_spec _ _ _
+theorem eq_req_cookie_value_prefix_in : matchPrim o "req_cookie_value_prefix_in" a0 a1 fold r = specPrim o "req_cookie_value_prefix_in" a0 a1 fold r := by
+  rw [mEq_req_cookie_value_prefix_in, sEq_req_cookie_value_prefix_in, onStr_cookie]; congr; funext v; exact prefixM_eq_spec _ _ _
+theorem eq_req_cookie_value_suffix_in : matchPrim o "req_cookie_value_suffix_in" a0 a1 fold r = specPrim o "req_cookie_value_suffix_in" a0 a1 fold r := by
+  rw [mEq_req_cookie_value_suffix_in, sEq_req_cookie_value_suffix_in, onStr_cookie]; congr; funext v; exact suffixM_eq_spec _ _ _
+theorem eq_req_cookie_value_contain : matchPrim o "req_cookie_value_contain" a0 a1 fold r = specPrim o "req_cookie_value_contain" a0 a1 fold r := by
+  rw [mEq_req_cookie_value_contain, sEq_req_cookie_value_contain, onStr_cookie]; congr; funext v; exact containM_eq_spec _ _ _
+theorem eq_req_cookie_value_hash_in : matchPrim o "req_cookie_value_hash_in" a0 a1 fold r = specPrim o "req_cookie_value_hash_in" a0 a1 fold r := by
+  rw [mEq_req_cookie_value_hash_in, sEq_req_cookie_value_hash_in]
+  unfold mHash specHash; cases hashSections a1 with
+  | none => rfl
+  | some secs => simp only [onStr_cookie]; rfl
+
+theorem eq_req_tag_match : matchPrim o "req_tag_match" a0 a1 fold r = specPrim o "req_tag_match" a0 a1 fold r := by
+  rw [mEq_req_tag_match, sEq_req_tag_match]
+  cases tagsOf r a0 with
+  | none => rfl
+  | some ts => simp [splitOn_head]
+
+theorem eq_req_context_value_in : matchPrim o "req_context_value_in" a0 a1 fold r = specPrim o "req_context_value_in" a0 a1 fold r := by
+  rw [mEq_req_context_value_in, sEq_req_context_value_in]
+  unfold ctxOf
+  cases r.ctx with
+  | none => rfl
+  | some m =>
+    by_cases he : a0.isEmpty = true
+    · simp [he, onStr]
+    · simp only [he, Bool.false_eq_true, if_false, Bool.not_false, Bool.true_and]
+      cases m.find? (fun e => e.1 == a0) with
+      | none => rfl
+      | some e =>
+        obtain ⟨k, v⟩ := e
+        cases v with
+        | none => rfl
+        | some v => simp [onStr, inM_eq_spec]
+
+theorem ipRange_eq (ip : Option Bytes) : mIpRange o a0 a1 ip = specIpRange o a0 a1 ip := by
+  unfold mIpRange specIpRange
+  cases o.x.parseIP a0 <;> cases o.x.parseIP a1 <;> rfl
+
+theorem eq_req_cip_range : matchPrim o "req_cip_range" a0 a1 fold r = specPrim o "req_cip_range" a0 a1 fold r := by
+  rw [mEq_req_cip_range, sEq_req_cip_range, ipRange_eq]
+theorem eq_req_vip_range : matchPrim o "req_vip_range" a0 a1 fold r = specPrim o "req_vip_range" a0 a1 fold r := by
+  rw [mEq_req_vip_range, sEq_req_vip_range, ipRange_eq]
+theorem eq_ses_vip_range : matchPrim o "ses_vip_range" a0 a1 fold r = specPrim o "ses_vip_range" a0 a1 fold r := by
+  rw [mEq_ses_vip_range, sEq_ses_vip_range, ipRange_eq]
+theorem eq_ses_sip_range : matchPrim o "ses_sip_range" a0 a1 fold r = specPrim o "ses_sip_range" a0 a1 fold r := by
+  rw [mEq_ses_sip_range, sEq_ses_sip_range, ipRange_eq]
+theorem eq_req_cip_hash_in : matchPrim o "req_cip_hash_in" a0 a1 fold r = specPrim o "req_cip_hash_in" a0 a1 fold r := by
+  rw [mEq_req_cip_hash_in, sEq_req_cip_hash_in]
+  unfold mHash specHash
+  cases hashSections a0 <;> cases r.cip <;> rfl
+theorem any_beq_contains (l : List (Option Bytes)) (a : Option Bytes) : l.any (· == a) = l.contains a := by
+  rw [Bool.eq_iff_iff]; simp [List.any_eq_true, List.contains_iff_mem]
+theorem eq_req_vip_in : matchPrim o "req_vip_in" a0 a1 fold r = specPrim o "req_vip_in" a0 a1 fold r := by
+  rw [mEq_req_vip_in, sEq_req_vip_in]
+  cases r.vip <;> simp only [patterns, ipFetch, attr, any_beq_contains] <;> (split <;> simp_all)
+theorem eq_res_code_in : matchPrim o "res_code_in" a0 a1 fold r = specPrim o "res_code_in" a0 a1 fold r := by
+  rw [mEq_res_code_in, sEq_res_code_in]
+  cases r.resp <;> simp [onStr, attr, inM_eq_spec]
+theorem eq_ses_tls_sni_in : matchPrim o "ses_tls_sni_in" a0 a1 fold r = specPrim o "ses_tls_sni_in" a0 a1 fold r := by
+  rw [mEq_ses_tls_sni_in, sEq_ses_tls_sni_in]
+  unfold sniOf specTls
+  cases r.secure <;> cases r.tls with
+  | none => rfl
+  | some t =>
+    first
+    | rfl
+    | (by_cases h : t.sni = []
+       · simp [h, onStr, attr]
+       · have h' : t.sni.isEmpty = false := by cases hs : t.sni <;> simp_all
+         simp [h, h', onStr, attr, inM_eq_spec])
+theorem eq_ses_tls_client_auth : matchPrim o "ses_tls_client_auth" a0 a1 fold r = specPrim o "ses_tls_client_auth" a0 a1 fold r := by
+  rw [mEq_ses_tls_client_auth, sEq_ses_tls_client_auth]
+  unfold specTls
+  cases r.secure <;> cases r.tls <;> rfl
+theorem eq_ses_tls_client_ca_in : matchPrim o "ses_tls_client_ca_in" a0 a1 fold r = specPrim o "ses_tls_client_ca_in" a0 a1 fold r := by
+  rw [mEq_ses_tls_client_ca_in, sEq_ses_tls_client_ca_in]
+  unfold caOf specTls
+  cases r.secure <;> cases r.tls with
+  | none => rfl
+  | some t =>
+    first
+    | rfl
+    | (cases h1 : t.clientAuth <;> by_cases h2 : t.ca = []
+       · simp [h1, h2, onStr, attr]
+       · have h' : t.ca.isEmpty = false := by cases hs : t.ca <;> simp_all
+         simp [h1, h2, h', onStr, attr]
+       · simp [h1, h2, onStr, attr]
+       · have h' : t.ca.isEmpty = false := by cases hs : t.ca <;> simp_all
+         simp [h1, h2, h', onStr, attr, inM_eq_spec])
+theorem eq_bfe_time_range : matchPrim o "bfe_time_range" a0 a1 fold r = specPrim o "bfe_time_range" a0 a1 fold r := by
+  rw [mEq_bfe_time_range, sEq_bfe_time_range]
+  simp only [Bool.decide_and]
+theorem eq_bfe_periodic_time_range : matchPrim o "bfe_periodic_time_range" a0 a1 fold r = specPrim o "bfe_periodic_time_range" a0 a1 fold r := by
+  rw [mEq_bfe_periodic_time_range, sEq_bfe_periodic_time_range]
+  rcases C17.parseTimeOfDay o.x a0 with _ | _ | ⟨s1, o1⟩ <;>
+    rcases C17.parseTimeOfDay o.x a1 with _ | _ | ⟨s2, o2⟩ <;>
+    cases timeOf o r <;> simp [clockSecs, Bool.decide_and] <;>
+    (by_cases h1 : s2 < s1 <;> by_cases h2 : o1 = o2 <;> simp [h1, h2])
+
+/-! conditional ones -/
+theorem onStr_str (v : Bytes) (m : Bytes → Bool) : onStr (.str v) m = m v := rfl
+
+theorem eq_req_host_in (h : r.host.head? ≠ some 91) :
+    matchPrim o "req_host_in" a0 a1 fold r = specPrim o "req_host_in" a0 a1 fold r := by
+  rw [mEq_req_host_in, sEq_req_host_in, hostOf_eq_spec _ h, inM_eq_spec]; rfl
+theorem eq_req_host_suffix_in (h : r.host.head? ≠ some 91) :
+    matchPrim o "req_host_suffix_in" a0 a1 fold r = specPrim o "req_host_suffix_in" a0 a1 fold r := by
+  rw [mEq_req_host_suffix_in, sEq_req_host_suffix_in, hostOf_eq_spec _ h, suffixM_eq_spec]
+theorem eq_req_host_regmatch (h : r.host.head? ≠ some 91) :
+    matchPrim o "req_host_regmatch" a0 a1 fold r = specPrim o "req_host_regmatch" a0 a1 fold r := by
+  rw [mEq_req_host_regmatch, sEq_req_host_regmatch, hostOf_eq_spec _ h]; rfl
+theorem eq_req_port_in (h1 : r.host.head? ≠ some 91) (h2 : r.host.head? ≠ some 58) :
+    matchPrim o "req_port_in" a0 a1 fold r = specPrim o "req_port_in" a0 a1 fold r := by
+  rw [mEq_req_port_in, sEq_req_port_in, portOf_eq_spec _ h1 h2, inM_eq_spec]
+
+theorem eq_req_header_key_in (hne : ∀ kv ∈ r.headers, kv.2 ≠ []) :
+    matchPrim o "req_header_key_in" a0 a1 fold r = specPrim o "req_header_key_in" a0 a1 fold r := by
+  rw [mEq_req_header_key_in, sEq_req_header_key_in]
+  simp only [headerGet_ne_nil _ hne, patterns]
+theorem eq_res_header_key_in (hne : ∀ p, r.resp = some p → ∀ kv ∈ p.headers, kv.2 ≠ []) :
+    matchPrim o "res_header_key_in" a0 a1 fold r = specPrim o "res_header_key_in" a0 a1 fold r := by
+  rw [mEq_res_header_key_in, sEq_res_header_key_in]
+  cases hr : r.resp with
+  | none => rfl
+  | some p => simp [headerGet_ne_nil _ (hne p hr), patterns, attr]
+
+end PrimEq
+
+section Present
+variable (o : Orc) (a0 a1 : Bytes) (fold : Bool) (r : Req)
+
+theorem eq_req_header_value_in (v : Bytes) (h : assoc a0 r.headers = some v) :
+    matchPrim o "req_header_value_in" a0 a1 fold r = specPrim o "req_header_value_in" a0 a1 fold r := by
+  rw [mEq_req_header_value_in, sEq_req_header_value_in]; simp only [headerGet, queryGet, h, Option.getD_some, attr, inM_eq_spec]
+
+theorem eq_req_header_value_prefix_in (v : Bytes) (h : assoc a0 r.headers = some v) :
+    matchPrim o "req_header_value_prefix_in" a0 a1 fold r = specPrim o "req_header_value_prefix_in" a0 a1 fold r := by
+  rw [mEq_req_header_value_prefix_in, sEq_req_header_value_prefix_in]; simp only [headerGet, queryGet, h, Option.getD_some, attr, prefixM_eq_spec]
+
+theorem eq_req_header_value_suffix_in (v : Bytes) (h : assoc a0 r.headers = some v) :
+    matchPrim o "req_header_value_suffix_in" a0 a1 fold r = specPrim o "req_header_value_suffix_in" a0 a1 fold r := by
+  rw [mEq_req_header_value_suffix_in, sEq_req_header_value_suffix_in]; simp only [headerGet, queryGet, h, Option.getD_some, attr, suffixM_eq_spec]
+
+theorem eq_req_header_value_contain (v : Bytes) (h : assoc a0 r.headers = some v) :
+    matchPrim o "req_header_value_contain" a0 a1 fold r = specPrim o "req_header_value_contain" a0 a1 fold r := by
+  rw [mEq_req_header_value_contain, sEq_req_header_value_contain]; simp only [headerGet, queryGet, h, Option.getD_some, attr, containM_eq_spec]
+
+theorem eq_req_header_value_regmatch (v : Bytes) (h : assoc a0 r.headers = some v) :
+    matchPrim o "req_header_value_regmatch" a0 a1 fold r = specPrim o "req_header_value_regmatch" a0 a1 fold r := by
+  rw [mEq_req_header_value_regmatch, sEq_req_header_value_regmatch]; simp only [headerGet, queryGet, h, Option.getD_some, mRe, sRe, attr, onStr]
+
+theorem eq_req_header_value_hash_in (v : Bytes) (h : assoc a0 r.headers = some v) :
+    matchPrim o "req_header_value_hash_in" a0 a1 fold r = specPrim o "req_header_value_hash_in" a0 a1 fold r := by
+  rw [mEq_req_header_value_hash_in, sEq_req_header_value_hash_in]; simp only [headerGet, queryGet, h, Option.getD_some, mHash, specHash, attr, onStr, hashM]
+
+theorem eq_req_query_value_in (v : Bytes) (h : assoc a0 r.query = some v) :
+    matchPrim o "req_query_value_in" a0 a1 fold r = specPrim o "req_query_value_in" a0 a1 fold r := by
+  rw [mEq_req_query_value_in, sEq_req_query_value_in]; simp only [headerGet, queryGet, h, Option.getD_some, attr, inM_eq_spec]
+
+theorem eq_req_query_value_prefix_in (v : Bytes) (h : assoc a0 r.query = some v) :
+    matchPrim o "req_query_value_prefix_in" a0 a1 fold r = specPrim o "req_query_value_prefix_in" a0 a1 fold r := by
+  rw [mEq_req_query_value_prefix_in, sEq_req_query_value_prefix_in]; simp only [headerGet, queryGet, h, Option.getD_some, attr, prefixM_eq_spec]
+
+theorem eq_req_query_value_suffix_in (v : Bytes) (h : assoc a0 r.query = some v) :
+    matchPrim o "req_query_value_suffix_in" a0 a1 fold r = specPrim o "req_query_value_suffix_in" a0 a1 fold r := by
+  rw [mEq_req_query_value_suffix_in, sEq_req_query_value_suffix_in]; simp only [headerGet, queryGet, h, Option.getD_some, attr, suffixM_eq_spec]
+
+theorem eq_req_query_value_contain (v : Bytes) (h : assoc a0 r.query = some v) :
+    matchPrim o "req_query_value_contain" a0 a1 fold r = specPrim o "req_query_value_contain" a0 a1 fold r := by
+  rw [mEq_req_query_value_contain, sEq_req_query_value_contain]; simp only [headerGet, queryGet, h, Option.getD_some, attr, containM_eq_spec]
+
+theorem eq_req_query_value_regmatch (v : Bytes) (h : assoc a0 r.query = some v) :
+    matchPrim o "req_query_value_regmatch" a0 a1 fold r = specPrim o "req_query_value_regmatch" a0 a1 fold r := by
+  rw [mEq_req_query_value_regmatch, sEq_req_query_value_regmatch]; simp only [headerGet, queryGet, h, Option.getD_some, mRe, sRe, attr, onStr]
+
+theorem eq_req_query_value_hash_in (v : Bytes) (h : assoc a0 r.query = some v) :
+    matchPrim o "req_query_value_hash_in" a0 a1 fold r = specPrim o "req_query_value_hash_in" a0 a1 fold r := by
+  rw [mEq_req_query_value_hash_in, sEq_req_query_value_hash_in]; simp only [headerGet, queryGet, h, Option.getD_some, mHash, specHash, attr, onStr, hashM]
+
+theorem eq_req_ua_regmatch (v : Bytes) (h : assoc uaKey r.headers = some v) :
+    matchPrim o "req_ua_regmatch" a0 a1 fold r = specPrim o "req_ua_regmatch" a0 a1 fold r := by
+  rw [mEq_req_ua_regmatch, sEq_req_ua_regmatch]; simp only [headerGet, h, Option.getD_some, mRe, sRe, attr, onStr]
+theorem eq_res_header_value_in (hp : ∀ p, r.resp = some p → (assoc a0 p.headers).isSome) :
+    matchPrim o "res_header_value_in" a0 a1 fold r = specPrim o "res_header_value_in" a0 a1 fold r := by
+  rw [mEq_res_header_value_in, sEq_res_header_value_in]
+  unfold rhdrF sRh
+  cases hr : r.resp with
+  | none => rfl
+  | some p =>
+    have := hp p hr
+    cases hv : assoc a0 p.headers with
+    | none => rw [hv] at this; cases this
+    | some v => simp [headerGet, hv, onStr, attr, inM_eq_spec]
+end Present
+
+theorem mIpRange_none (o : Orc) (a0 a1 : Bytes) : mIpRange o a0 a1 none ≠ some true := by
+  unfold mIpRange
+  rcases o.x.parseIP a0 with _ | s <;> rcases o.x.parseIP a1 with _ | e
+  · simp
+  · simp
+  · simp
+  · simp only [ipFetch]
+    by_cases h1 : (isV4 s != isV4 e) = true
+    · simp [h1]
+    · by_cases h2 : bytesLt e s = true <;> simp [h1, h2]
 
 end BfeVerif.C18
